@@ -1,4 +1,5 @@
 """C13 — extension-header chains; unknown mandatory extensions cause a drop (claimed in part)."""
+import os
 from framework import *
 FLOOR_R1 = 10
 from rules import c06, c09, c03
@@ -322,7 +323,7 @@ def bounded_chain_rules(ck, ns=(1, 2, 3), pid='C13.R8', parts=('panic', 'tiling'
             v = w.mem[ev[1]]
             w.store = w.store.add_eq(v[1], Lin.c(_n))
             w.mem[ev[1]] = ('seq', Lin.c(_n)) + tuple(v[2:])
-        a = analyse_writer(ck, ENC + 'encap_ext', tag=f"c13-chain{n}", extra=dict(c09.ENCCFG, call_override={EXT + '::len': ext_len}, refine_hook=on_refine), premise=pin)
+        a = analyse_writer(ck, ENC + 'encap_ext', tag=f"c13-chain{n}", extra=dict(c09.ENCCFG, call_override={EXT + '::len': ext_len}, refine_hook=on_refine, relational_all=bool(int(os.environ.get('VERIF_RELALL', '0')))), premise=pin)
         seen = set()
         for r in (a.obligations() if 'panic' in parts else ()):
             d = r.data
